@@ -6,6 +6,7 @@ P2 id-graphs of the mutable containers reachable from defaulted fields / paramet
 P3 a history of parses followed by a probe whose outcome is compared with the SAME probe made by a
    process that never ran the history (fork of a zygote that has only imported utype)."""
 import copy
+import typing
 import itertools
 import json
 import os
@@ -28,7 +29,7 @@ RULE = ("family P1 (60%): random TypeSpec / data class entered through every rou
         "collect_errors x 8 inputs with nested mutable containers (incl. same-type shortcuts: an exactly typed list / dict / "
         "instance); structural snapshot before == after, for accepted and rejected parses. family P2 (15%): data classes "
         "(Schema, DataClass) and @parse functions whose defaults are generated nested mutables (list / dict / set / tuple-of-list "
-        "/ dict-of-tuple-of-list ..., plain default, Field(default=), default_factory): container id-graphs of instance 1, "
+        "/ dict-of-tuple-of-list ..., plain default, Field(default=), default_factory, Annotated[T, Field(...)] = default): container id-graphs of instance 1, "
         "instance 2 and the declared default must be disjoint; after mutating everything reachable from instance 1, instance 2 "
         "and a new instance 3 must still equal the pristine default. family P3 (25%): a generated module (Schema/DataClass with "
         "self and late forward references, unions, a @parse function, a @parse generator, a lax Rule) + a history of 1-10 calls "
@@ -216,7 +217,7 @@ def make_case(i, rng, tier):
     if r < 0.75:
         n = rng.randint(1, 4)
         return {"fam": "P2", "kind": rng.choice(["Schema", "DataClass", "function"]),
-                "defaults": [(gen_mutable(rng, rng.choice([1, 2, 3])), rng.choice(["plain", "field", "factory"])) for _ in range(n)]}
+                "defaults": [(gen_mutable(rng, rng.choice([1, 2, 3])), rng.choice(["plain", "field", "factory", "annotated"])) for _ in range(n)]}
     if rng.random() < 0.03:
         # two modules declaring a class of the SAME name, each with a string self-reference inside Optional[...]
         return {"fam": "P3x"}
@@ -323,13 +324,16 @@ def run_p2(case, ctx):
     uid = next(_S["uid"])
     try:
         if case["kind"] == "function":
-            ns = {"_D": declared, "Param": Param, "copy": copy}
+            ns = {"_D": declared, "Param": Param, "copy": copy, "typing": typing}
             params = []
             for i, (d, how) in enumerate(case["defaults"]):
                 if how == "plain":
                     params.append(f"{names[i]}=_D[{i}]")
                 elif how == "field":
                     params.append(f"{names[i]}=Param(_D[{i}])")
+                elif how == "annotated":
+                    # the settings in the annotation, the default as a plain Python default
+                    params.append(f"{names[i]}: typing.Annotated[type(_D[{i}]), Param(description='d')] = _D[{i}]")
                 else:
                     params.append(f"{names[i]}=Param(default_factory=lambda: copy.deepcopy(_D[{i}]))")
             exec("def fn(" + ", ".join(params) + "):\n    return dict(locals())\n", ns)
@@ -344,6 +348,9 @@ def run_p2(case, ctx):
                     body[names[i]] = d
                 elif how == "field":
                     body[names[i]] = Field(default=d)
+                elif how == "annotated":
+                    body["__annotations__"][names[i]] = typing.Annotated[type(d), Field(description="d")]
+                    body[names[i]] = d
                 else:
                     body[names[i]] = Field(default_factory=lambda d=d: copy.deepcopy(d))
             cls = type(base)("P%d" % uid, (base,), body)
